@@ -286,6 +286,30 @@ def run(ctx, anchors=None):
                  "%s (0x%x) is a defined opcode with no case label: it fails as BAD_OPCODE instead of executing" % (name, v))
     ctx.ok("R01.2", "all-enumerators-dispatched", opstep.loc(main_sw), "%d enumerators: push range, %d case labels, %d reserved" % (len(E), len(H), len(RESERVED)))
 
+    # ---- R01.2b conditional opcodes are dispatched even in a skipped branch: the dispatch condition in front of the opcode
+    # switch, evaluated with fExec = false over every opcode value, must select exactly OP_IF..OP_ENDIF (0x63..0x68),
+    # which includes the always-failing OP_VERIF / OP_VERNOTIF
+    from .. import fd
+    disp = None
+    for a in opstep.ancestors(main_sw):
+        if a.get("k") == "if" and (a.get("then") is main_sw or S.contains(a["then"], main_sw)):
+            disp = a
+            break
+    if disp is None:
+        ctx.fail("R01.2", "conditional-dispatch-range", opstep.loc(main_sw), "the opcode switch is no longer guarded by the `fExec || <conditional opcode>` dispatch condition")
+    else:
+        try:
+            sel = [v for v in range(0, 256) if fd.ev(disp["cond"], {"fExec": 0, "opcode": v})]
+            selx = [v for v in range(0, 256) if fd.ev(disp["cond"], {"fExec": 1, "opcode": v})]
+        except fd.Unknown as e:
+            raise AnalysisBroken("R01.2: dispatch condition not evaluable: %s" % e)
+        want = list(range(E["OP_IF"], E["OP_ENDIF"] + 1))
+        inv = {v: k for k, v in E.items()}
+        ctx.site(512)
+        ctx.inst(sel == want and len(selx) == 256, "R01.2", "conditional-dispatch-range", opstep.loc(disp),
+                 "with fExec false exactly OP_IF..OP_ENDIF (incl. OP_VERIF, OP_VERNOTIF) reach the opcode switch; with fExec true every opcode does",
+                 "in a non-executed branch the opcodes reaching the switch are %s; Bitcoin dispatches exactly OP_IF..OP_ENDIF there (missing: %s) - a skipped %s no longer fails the script"
+                 % ([inv.get(v, hex(v)) for v in sel], [inv.get(v, hex(v)) for v in want if v not in sel], "/".join(inv.get(v, hex(v)) for v in want if v not in sel) or "opcode"))
     # ---- R01.3
     cfg = opstep.cfg()
     ng = 0
@@ -383,6 +407,7 @@ def run(ctx, anchors=None):
 
 
 MUTANTS = [
+    dict(name="dispatch-list-misses-VERIF", file="script/interpreter.cpp", find="} else if (fExec || (OP_IF <= opcode && opcode <= OP_ENDIF))", replace="} else if (fExec || opcode == OP_IF || opcode == OP_NOTIF || opcode == OP_ELSE || opcode == OP_ENDIF)", expect=["R01.2:conditional-dispatch-range"]),
     dict(name="max-opcode-back-to-NOP10", file="script/script.h", find="MAX_OPCODE = OP_CHECKSIGADD;", replace="MAX_OPCODE = OP_NOP10;", expect=["R01.1:MAX_OPCODE=max-defined", "R01.1:handled<=MAX_OPCODE"]),
     dict(name="case-label-deleted", file="script/interpreter.cpp", find="                case OP_NIP:\n", replace="                case OP_RESERVED2:\n", expect=["R01.2:dispatch=OP_NIP"]),
     dict(name="guard-lowered-OP_ROT", file="script/interpreter.cpp", find="                    // (x1 x2 x3 -- x2 x3 x1)\n                    //  x2 x1 x3  after first swap\n                    //  x2 x3 x1  after second swap\n                    if (stack.size() < 3)",
